@@ -1474,3 +1474,80 @@ Proof.
   assert (H2 : MiscSpec.counter_ok 500000%Z) by (split; discriminate).
   exact (proj2 (proj2 (C06_native_conditions_counter_free _ _ _ _ _ _ _ H1 H2 Hyp Hyp0 Hyp1 Hyp2 Hyp3 Hyp4))).
 Qed.
+
+(* ================================================================================================== *)
+(* added from Properties/C06_add.v, job pj_fix (2026-10-01)                                   *)
+(* ================================================================================================== *)
+(* C06 (addition): non-vacuity examples for C06_conditions_merge_closed, C06_read_has_visit_list and
+   C06_reachable_complete_no_conflict.  To be appended to Properties/C06.v. *)
+From Coq Require Import String.   (* string literals of the examples; imported first so the list names win *)
+From Coq Require Import NArith ZArith List Bool.
+From DictIO Require Import Chars Str Value Scalar SDict Lexer TokParser Reader TreeSpec LayoutSpec SemProofs
+     IncludeProofs IncludeNested IncludeFiles.
+Import ListNotations.
+
+(* C06_read_has_visit_list on the five files of C06n_fs (two native, three JSON; r includes a, b, d; a includes c):
+   the read succeeds, so the theorem gives a visit list; it is the list of five parses computed by visit_parses *)
+Example C06_read_has_visit_list_nonvacuous :
+  exists s c',
+    read_plain C06n_fs C06n_root true true (-1)%Z = Ok (s, c') /\
+    sd_data s <> [] /\
+    exists l, visit_parses C06n_fs true C06n_root (-1)%Z = Ok l.
+Proof.
+  do 2 eexists. do 2 C06n_keep C06n_vm.
+  exact (C06_read_has_visit_list _ _ _ _ _ _ Hyp).
+Qed.
+(* ... and the list the theorem speaks of is not a trivial one *)
+Example C06_read_has_visit_list_nonvacuous_list :
+  forall l, visit_parses C06n_fs true C06n_root (-1)%Z = Ok l ->
+    map fst l = [C06n_s "/r.dict"; C06n_s "/a.json"; C06n_s "/c.dict"; C06n_s "/b.json"; C06n_s "/d.json"].
+Proof.
+  intros l H. assert (E : l = C06f_list) by (unfold C06f_list; rewrite H; reflexivity).
+  rewrite E. vm_compute. reflexivity.
+Qed.
+
+(* C06_conditions_merge_closed at the path sub.deep.r: the three conditions, instantiated with the data of a.json
+   (target) and of c.dict (merged in; it holds 4 at sub.deep.r, a.json holds nothing there), survive the merge the
+   reader performs (the conclusion is obtained by unfolding merge_closed on the theorem's three conjuncts) *)
+Example C06_conditions_merge_closed_nonvacuous :
+  let p := C06n_p3 "sub" "deep" "r" in
+  let a := remove_include_keys (sd_data (pr_sd (C06n_parse "/a.json" 2%Z))) in
+  let b := sd_data (pr_sd (C06n_parse "/c.dict" 3%Z)) in
+  forallb ordinary_key p = true /\ p <> [] /\
+  a <> [] /\ b <> [] /\ get_dpath (Dict b) p = Some (Leaf (SInt 4)) /\ get_dpath (Dict a) p = None /\
+  clear_above (Dict a) p = true /\ clear_above (Dict b) p = true /\
+  clear_upto (Dict a) p = true /\ clear_upto (Dict b) p = false /\
+  falls_off (Dict a) p = true /\ falls_off (Dict b) p = false /\
+  merge_closed (fun d => clear_above (Dict d) p = true) /\
+  merge_closed (fun d => clear_upto (Dict d) p = true) /\
+  merge_closed (fun d => falls_off (Dict d) p = true).
+Proof.
+  intros p a b. do 12 C06n_keep C06n_vm.
+  destruct (C06_conditions_merge_closed p Hyp) as [H1 [H2 H3]].
+  split; [exact H1|]. split; [exact H2|]. exact (H3 Hyp0).
+Qed.
+
+(* C06_reachable_complete_no_conflict on the conflict-free five files C06f_fs: b.json (fourth in visit order) is
+   reached from the root (C06_visit_is_reached gives the run_reach witness); its blk.m is in the result *)
+Example C06_reachable_complete_no_conflict_nonvacuous :
+  let p := C06n_p2 "blk" "m" in
+  exists s c' l u0 pr0 pr,
+    fs_wf C06f_fs = true /\
+    read_plain C06f_fs C06n_root true true (-1)%Z = Ok (s, c') /\
+    visit_parses C06f_fs true C06n_root (-1)%Z = Ok l /\ no_conflict l = true /\ length l = 5%nat /\
+    fs_lookup (norm_path C06n_root) C06f_fs = Some u0 /\ parse_unit true C06n_root (-1)%Z u0 = Ok pr0 /\
+    nth_error (tl l) 2 = Some (C06n_s "/b.json", pr) /\
+    forallb ordinary_key p = true /\
+    get_dpath (Dict (sd_data (pr_sd pr))) p = Some (Leaf (SInt 3)) /\
+    (exists f' chain', run_reach C06f_fs true (S (length C06f_fs)) [] (pr_sd pr0) (pr_count pr0) f' chain'
+                                 (C06n_s "/b.json") pr) /\
+    get_dpath (Dict (sd_data s)) p <> None.
+Proof.
+  intro p. do 6 eexists. do 10 C06n_keep C06n_vm.
+  match goal with |- ?A /\ _ => assert (Hr : A) end.
+  { apply (proj2 (C06_visit_is_reached _ _ _ _ _ _ _ _ _ _ _ Hyp Hyp0 Hyp1 Hyp4 Hyp5)).
+    eapply nth_error_In. exact Hyp6. }
+  split; [exact Hr|]. destruct Hr as [f' [chain' Hr]].
+  eapply (C06_reachable_complete_no_conflict _ _ _ _ _ _ _ _ _ _ _ _ _ p Hyp Hyp0 Hyp1 Hyp2 Hyp4 Hyp5 Hr Hyp7).
+  rewrite Hyp8. discriminate.
+Qed.
